@@ -3,8 +3,8 @@
      -> per step "value ft f fx fy fz .." joined by " | "
    CVC natoms m.. cell comp pos(3n) F(3n) fc -> "value jd ft forces(3n)"
    comp:  D g g os | DZ g g og ax ay az os | DXY g g og ax ay az os | A g g g os | DH g g g g os
-          | GY k id.. | RM k id.. ref(3k) cen | EV k id.. ref(3k) evec(3k) cen
-          | RMR k id.. ref(3k) | EVR k id.. ref(3k) evec(3k)   (rotated; each step then carries m00..m22 jd per such comp)
+          | GY k id.. | RM k id.. ref(3k) ne copy(3k).. cen | EV k id.. ref(3k) evec(3k) cen
+          | RMR k id.. ref(3k) ne copy(3k).. | EVR k id.. ref(3k) evec(3k)   (rotated; each step then carries m00..m22 jd per such comp)
    g: G k id.. | U x y z      og: - | g      cen, cell: N | C x y z      os: 0|1 *)
 open Model
 open X_fops
@@ -46,11 +46,13 @@ let () =
           | "A" -> let a = group () in let b = group () in let c = group () in CAngle (a, b, c, nb ())
           | "DH" -> let a = group () in let b = group () in let c = group () in let d = group () in CDihedral (a, b, c, d, nb ())
           | "GY" -> CGyration (ids ())
-          | "RM" -> let l = ids () in let r = List.map (fun _ -> v3 ()) l in CRmsd (l, r, cen ())
+          | "RM" -> let l = ids () in let r = List.map (fun _ -> v3 ()) l in
+            let ne = ni () in let ex = List.init ne (fun _ -> List.map (fun _ -> v3 ()) l) in CRmsd (l, r, ex, cen ())
           | "EV" -> let l = ids () in let r = List.map (fun _ -> v3 ()) l in let e = List.map (fun _ -> v3 ()) l in
             CEigenvector (l, r, e, cen ())
-          | "RMR" -> let l = ids () in let r = List.map (fun _ -> v3 ()) l in let t = newtab () in
-            CRmsdRot (l, r, (fun p -> try let (_, m, _) = List.find (fun (q, _, _) -> q == p) !t in m with Not_found -> idm),
+          | "RMR" -> let l = ids () in let r = List.map (fun _ -> v3 ()) l in
+            let ne = ni () in let ex = List.init ne (fun _ -> List.map (fun _ -> v3 ()) l) in let t = newtab () in
+            CRmsdRot (l, r, ex, (fun p -> try let (_, m, _) = List.find (fun (q, _, _) -> q == p) !t in m with Not_found -> idm),
                       (fun p -> try let (_, _, j) = List.find (fun (q, _, _) -> q == p) !t in j with Not_found -> 0.0))
           | "EVR" -> let l = ids () in let r = List.map (fun _ -> v3 ()) l in let e = List.map (fun _ -> v3 ()) l in let t = newtab () in
             CEigenvectorRot (l, r, e, (fun p -> try let (_, m, _) = List.find (fun (q, _, _) -> q == p) !t in m with Not_found -> idm),
